@@ -260,7 +260,13 @@ def run_case(ctx, name, params):
             pop.append(ind)
         TournamentSelector([{"name": "x", "bounds": [0, 1]}]).fast_nondominated_sorting(pop)
         distinct = len({tuple(v) for v in vecs})
-        res = nondominated_truncate(pop, size * 2)
+        # "population: iterable": a list, a tuple, or something that can be walked only once
+        kind_ = r.choice(["list", "list", "tuple", "iterator", "generator", "chain"])
+        import itertools as _it
+        arg_ = pop if kind_ == "list" else tuple(pop) if kind_ == "tuple" else iter(pop) if kind_ == "iterator" else \
+            (o_ for o_ in pop) if kind_ == "generator" else _it.chain(pop[:len(pop) // 2], pop[len(pop) // 2:])
+        ctx.count("truncations_of_a_" + kind_)
+        res = nondominated_truncate(arg_, size * 2)
         ctx.count("truncate_dedup_checks")
         if distinct < size or len({hash(tuple(v)) for v in vecs}) < distinct:
             ctx.nontrivial(("tr", tuple(map(tuple, vecs))))
